@@ -801,3 +801,95 @@ Proof. vm_compute. auto. Qed.
 Example ex_fg_args : fg_args [b "tshelper"; b "exit"; b "3"].
 Proof. split; [discriminate|reflexivity]. Qed.
 End Examples.
+
+(* ---- Params.RequireExplicitExec *)
+
+Lemma lookup_main cfg name : In name (c_main_cmds cfg) -> lookup_cmd cfg name = Some (CMain name).
+Proof. intros H. unfold lookup_cmd. apply mem_bytes_In in H. rewrite H. reflexivity. Qed.
+
+(* a command registered through testscript.Main and used without `exec` fails, changing
+   nothing, when RequireExplicitExec is set -- with or without "!" ... *)
+Theorem explicit_exec_required cfg st line neg name args :
+  c_explicit_exec cfg = true -> In name (c_main_cmds cfg) ->
+  reaches cfg st line neg (CMain name) args ->
+  run_line cfg st line = Failed st.
+Proof.
+  intros He Hin Hr. rewrite (run_line_reaches _ _ _ _ _ _ Hr). simpl. rewrite He. reflexivity.
+Qed.
+
+(* ... and behaves exactly like `exec name args` when it is not *)
+Theorem explicit_exec_not_required cfg name neg args st :
+  c_explicit_exec cfg = false ->
+  cmd_sem cfg (CMain name) neg args st = cmd_exec cfg neg (name :: args) st.
+Proof. intros He. simpl. rewrite He. reflexivity. Qed.
+
+(* `exec name` itself is never affected by the flag *)
+Theorem explicit_exec_irrelevant_for_exec cfg cfg' neg args st :
+  (forall prog, can_start cfg st prog = can_start cfg' st prog) ->
+  cmd_exec cfg neg args st = cmd_exec cfg' neg args st.
+Proof.
+  intros H. unfold cmd_exec. destruct args as [|prog rest]; [reflexivity|].
+  destruct (bg_spec _); [destruct rest; [reflexivity|]; destruct (find_bg _ _); [reflexivity|]|]; rewrite H; reflexivity.
+Qed.
+
+(* ---- Params.RequireUniqueNames: one unpacking step *)
+
+(* with the flag an entry whose path is already taken (by an earlier entry of the same name,
+   by a file, a directory or a link) makes setup fail: FAIL file:0 whatever ContinueOnError says *)
+Theorem unique_names_step st name data r t1 :
+  let p := mkabs st (expand [] name) in
+  mkdir_all (s_fs st) (dir p) 511 = (t1, true) ->
+  lstat t1 p <> None ->
+  snd (unpack true ((name, data) :: r) st) = false.
+Proof.
+  intros p Hm Hl. cbn [unpack]. fold p.
+  change (s_fs (set_files st (assoc_set (s_files st) p name))) with (s_fs st). rewrite Hm.
+  assert (write_file_excl t1 p data 438 = None) as ->; [|reflexivity].
+  unfold write_file_excl. unfold lstat in Hl.
+  destruct (ends_in_slash p || ends_in_dots p); [reflexivity|].
+  destruct (resolve t1 false p) as [q|]; [|reflexivity].
+  destruct q as [|c q']; [reflexivity|].
+  destruct (node_at t1 (c :: q')); [reflexivity|]. exfalso. apply Hl. reflexivity.
+Qed.
+
+Theorem setup_failure_is_fail_0 cfg work env a st :
+  setup cfg work env a = (st, false) ->
+  r_verdict (run_archive cfg work env a) = Fail 0 /\ r_fail_lines (run_archive cfg work env a) = [0].
+Proof. intros H. unfold run_archive. rewrite H. auto. Qed.
+
+(* without the flag a later entry of the same name silently replaces the earlier one *)
+Theorem non_unique_overwrites st name data r t1 t2 :
+  let p := mkabs st (expand [] name) in
+  mkdir_all (s_fs st) (dir p) 511 = (t1, true) ->
+  write_file t1 p data 438 = Some t2 ->
+  unpack false ((name, data) :: r) st
+  = unpack false r (set_fs (set_files st (assoc_set (s_files st) p name)) t2).
+Proof.
+  intros p Hm Hw. cbn [unpack]. fold p.
+  change (s_fs (set_files st (assoc_set (s_files st) p name))) with (s_fs st). rewrite Hm, Hw. reflexivity.
+Qed.
+
+Module ParamsExamples.
+Import String.
+Local Open Scope string_scope.
+Local Open Scope list_scope.
+Import Examples.
+Definition cfgp (ree uniq : bool) : config :=
+  {| c_continue := true; c_explicit_exec := ree; c_unique := uniq; c_update := false;
+     c_host_conds := []; c_custom_cond := None; c_cmds := []; c_main_cmds := [b "tshelper"];
+     c_helper := b "tshelper"; c_helper_dir := b "/h"; c_watch := [] |}.
+Definition dup := script ["exists a.txt"; "-- a.txt --"; "one"; "-- a.txt --"; "two"].
+(* a duplicate entry name: setup fails (line 0) with the flag, even under ContinueOnError;
+   without it the later entry wins *)
+Example ex_unique :
+  r_verdict (run_file (cfgp false true) (b "/w") env0 dup) = Fail 0
+  /\ r_verdict (run_file (cfgp false false) (b "/w") env0 dup) = Pass
+  /\ read_file (s_fs (r_final (run_file (cfgp false false) (b "/w") env0 dup))) (b "/w/a.txt") = Some (b ("two" ++ nl)).
+Proof. vm_compute. repeat split; reflexivity. Qed.
+(* a registered command without exec *)
+Example ex_explicit_exec :
+  r_verdict (run_file (cfgp true false) (b "/w") env0 (script ["tshelper echo hi"])) = Fail 1
+  /\ r_verdict (run_file (cfgp true false) (b "/w") env0 (script ["exec tshelper echo hi"; "stdout hi"])) = Pass
+  /\ r_verdict (run_file (cfgp false false) (b "/w") env0 (script ["tshelper echo hi"; "stdout hi"])) = Pass.
+Proof. vm_compute. repeat split; reflexivity. Qed.
+End ParamsExamples.
